@@ -226,7 +226,7 @@ MULTIBYTE = ('shift_jis', 'euc-jp', 'big5', 'gb2312')     # the scanner (expat) 
 
 
 def run_instance(env, mode, kind, prolog, body_ref, has_decl, encoding='utf-8', bom=False, pad='', st=None,
-                 label='', lxml_parser=False):
+                 label='', lxml_parser=False, via='direct'):
     """One cell: instance role.  Returns violation records."""
     global _EVENTS
     out = []
@@ -253,7 +253,16 @@ def run_instance(env, mode, kind, prolog, body_ref, has_decl, encoding='utf-8', 
             if lxml_parser:
                 import lxml.etree as LET
                 kw = dict(kw, iterparse=LET.iterparse)
-            r = XMLResource(src, defuse=mode, **kw)
+            if via == 'direct':
+                r = XMLResource(src, defuse=mode, **kw)
+            elif via == 'resource_parse':
+                # an existing resource object re-used for another source: parse() rebuilds it with its own arguments
+                r = XMLResource('<r>ok</r>', defuse=mode, **kw)
+                r.parse(src)
+            else:
+                # the same through a document bound to a schema (XmlDocument is an XMLResource)
+                r = xmlschema.XmlDocument('<r>ok</r>', validation='skip', defuse=mode, **kw)
+                r.parse(src)
             outcome = 'parsed'
             root_text = ''.join(r.root.itertext())
         except XMLResourceForbidden:
@@ -272,8 +281,8 @@ def run_instance(env, mode, kind, prolog, body_ref, has_decl, encoding='utf-8', 
     inp = {'role': 'instance', 'mode': mode, 'kind': kind, 'label': label, 'encoding': encoding, 'bom': bom,
            'doc': text if len(text) < 2000 else text[:300] + '...[%d chars]...' % len(text) + text[-300:],
            'prolog': prolog, 'body_ref': body_ref, 'has_decl': has_decl, 'pad_len': len(pad),
-           'pad_head': pad[:40], 'lxml_parser': lxml_parser}
-    key = '%s|%s|%s|%016x' % (mode, kind, 'instance', core.h64(data))
+           'pad_head': pad[:40], 'lxml_parser': lxml_parser, 'via': via}
+    key = '%s|%s|%s|%s|%016x' % (mode, kind, 'instance', via, core.h64(data))
 
     def rec(k, exp, obs):
         return {'kind': k, 'input': inp, 'expected': exp, 'observed': obs, 'key': k + '|' + key, 'classes': []}
@@ -416,6 +425,11 @@ def run_shard(desc):
                     for enc, bom in (('utf-8', False), ('utf-8', True), ('utf-16', True), ('iso-8859-1', False)):
                         for r in run_instance(env, mode, kind, prolog, ref, has_decl, enc, bom, '', st, pname):
                             core.report(st, PROPERTY, r)
+                    if kind in ('str', 'bytes', 'path', 'remote_url', 'text_remote_base'):
+                        for via in ('resource_parse', 'xmldocument_parse'):
+                            for r in run_instance(env, mode, kind, prolog, ref, has_decl, 'utf-8', False, '', st, pname,
+                                                  False, via):
+                                core.report(st, PROPERTY, r)
             st.sample({'cell': [mode, 'nonseek_buffered', 'external'], 'doc': P['external'][0][:80] + '<r>&e;ok</r>'})
         elif desc[0] == 'schemas':
             for mode in MODES:
@@ -462,7 +476,8 @@ def replay(record):
             prolog, ref, has_decl = P[inp['label']]
             pad = inp.get('pad_head', '') if inp.get('pad_len', 0) <= 40 else '<!--' + 'y' * inp['pad_len'] + '-->'
             recs = run_instance(env, inp['mode'], inp['kind'], prolog, ref, has_decl, inp.get('encoding', 'utf-8'),
-                                inp.get('bom', False), pad, st, inp['label'], inp.get('lxml_parser', False))
+                                inp.get('bom', False), pad, st, inp['label'], inp.get('lxml_parser', False),
+                                inp.get('via', 'direct'))
         else:
             recs = run_schema(env, inp['mode'], inp['role'], inp['label'], st)
             recs = [r for r in recs if r['input']['kind'] == inp['kind']]
